@@ -551,6 +551,22 @@ def verify_segment(run, tier):
                 ge, ve = entry(ar, fk)
                 ctx.oblige(prefix + '/arg.' + fk, z3.Implies(g('a'), z3.And(ge == g('a.' + rk), z3.Implies(g('a.' + rk),
                            same(ve, SInt(z3.Int('seg.a.' + rk))) if ve is not None else z3.BoolVal(False)))))
+            # the fields the format defines per category: scalar category / type of a scalar argument (category 1); the
+            # representation of an argument that is available (availability absent or 3) - through the string index for a string
+            # argument (category 2), as recorded otherwise.  "Present" is key presence: 0 and index 0 are values.
+            cat = lambda n_: z3.And(g('a.c'), z3.Int('seg.a.c') == n_)
+            for rk, fk in (('sc', 'scalar_category'), ('st', 'scalar_type')):
+                ge, ve = entry(ar, fk)
+                cond = z3.And(g('a.' + rk), cat(1))
+                ctx.oblige(prefix + '/arg.' + fk, z3.Implies(g('a'), z3.And(ge == cond, z3.Implies(cond,
+                           same(ve, SInt(z3.Int('seg.a.' + rk))) if ve is not None else z3.BoolVal(False)))))
+            ge, ve = entry(ar, 'object_representation')
+            cond = z3.And(g('a.or'), z3.Or(z3.Not(g('a.a')), z3.Int('seg.a.a') == 3))
+            if ve is None:
+                val_ok = z3.BoolVal(False)
+            else:
+                val_ok = z3.If(cat(2), same(ve, sidx(z3.Int('seg.a.or'))), same(ve, SInt(z3.Int('seg.a.or'))))
+            ctx.oblige(prefix + '/arg.object_representation', z3.Implies(g('a'), z3.And(ge == cond, z3.Implies(cond, val_ok))))
         return res
     try:
         prs = sess.explore(thunk)
